@@ -327,7 +327,29 @@ func mkOffer(r *hk.Rand) offer {
 	}
 	name := []string{"sha1", "sha224", "sha224", "sha256"}[r.Intn(4)]
 	o := offer{key: refOf(name, v), truth: v, offered: v, kind: "true", supported: true}
-	switch r.Intn(10) {
+	switch r.Intn(12) {
+	case 10, 11:
+		// the TRUE bytes under a ref that differs from their digest in ONE hex digit – the first, the
+		// last, around the 32/64-bit word boundaries counted from either end, or anywhere
+		parts := strings.SplitN(o.key, "-", 2)
+		d := []byte(parts[1])
+		pos := []int{0, len(d) - 1, len(d) - 2, len(d) - 7, len(d) - 8, len(d) - 9, len(d) - 16, len(d) - 17, 7, 8, 15, 16, r.Intn(len(d)), r.Intn(len(d))}[r.Intn(14)]
+		const hexd = "0123456789abcdef"
+		nd := hexd[r.Intn(16)]
+		for nd == d[pos] {
+			nd = hexd[r.Intn(16)]
+		}
+		d[pos] = nd
+		where := "mid"
+		switch {
+		case pos == 0:
+			where = "first"
+		case pos >= len(d)-8:
+			where = "last8"
+		case pos >= len(d)-16:
+			where = "last16"
+		}
+		o.key, o.noTruth, o.kind = parts[0]+"-"+string(d), true, "near-miss-digest-"+where
 	case 0:
 		if len(v) > 0 {
 			o.offered, o.kind = v[:r.Intn(len(v))], "truncated"
@@ -423,11 +445,13 @@ func (c *caseRun) verdict(o offer, fin string) string {
 func Run(r *hk.Run) {
 	rnd := r.R
 	r.Res.Rule = "a case = one storage tree (memory, localdisk, diskpacked, and composites as in C01) and a sequence of offers (ref, bytes) through blobserver.Receive, the PUT handler and the multipart handler; offers are the true content or a truncation / extension / bit flip / permutation of it, refs of sha1/sha224/sha256, of an unknown hash name, or with a digest nothing hashes to; sources are fragmented arbitrarily (1-byte reads, empty reads, data+EOF together) and may fail mid-stream; after every rejection the ref must be absent from fetch/stat/enumerate and the hub silent. Sizes on both sides of the 16 MiB cap are offered to the real code (oracle only). distinct_nontrivial = distinct (ingest path, offer kind, end kind, verdict) combinations"
-	nCases, nOffers := 12, 60
+	nCases, nOffers := 15, 60
 	if r.Thorough() {
 		nCases, nOffers = 80, 200
 	}
-	trees := []string{"mem", "localdisk", "diskpacked:400", "replica mem localdisk", "overlay mem mem", "ns mem", "shard mem diskpacked", "cond mem mem", "proxy:200 mem memcache:100"}
+	trees := []string{"mem", "localdisk", "diskpacked:400", "replica mem localdisk", "overlay mem mem", "ns mem", "shard mem diskpacked", "cond mem mem", "proxy:200 mem memcache:100",
+		// stores that do not re-verify behind combinators that read the stream before passing it on
+		"cond localdisk localdisk", "cond diskpacked:400 localdisk", "cond localdisk mem", "ns localdisk", "overlay mem localdisk", "proxy:200 localdisk memcache:100"}
 	for t := 0; t < nCases; t++ {
 		spec := trees[t%len(trees)]
 		n, _, _ := c01.ParseTree(strings.Fields(spec))
